@@ -478,10 +478,14 @@ type vDeadliner struct {
 	script map[core.Duty]core.DeadlineStatus
 	calls  int
 	ch     chan core.Duty
+	inner  core.Deadliner // when set: a REAL deadliner answers (calls are still counted)
 }
 
 func (d *vDeadliner) Add(duty core.Duty) core.DeadlineStatus {
 	d.calls++
+	if d.inner != nil {
+		return d.inner.Add(duty)
+	}
 	if s, ok := d.script[duty]; ok {
 		return s
 	}
@@ -514,6 +518,8 @@ type vEnv struct {
 	gaterFunc core.DutyGaterFunc
 	dl        map[core.Duty]core.DeadlineStatus
 	ctxK      int  // -1: never cancelled
+	realDL    core.Deadliner // a real deadliner answers instead of the script ...
+	realTerm  string         // ... described to the model as "now sd spe" (ns since genesis, slot duration, slots per epoch)
 	doneNow   bool // Done() closed (only used when the buffer is known to be full)
 }
 
@@ -606,6 +612,9 @@ func (w *vWorld) envTerm(e vEnv) string {
 	if e.ctxK >= 0 {
 		ctx = fmt.Sprintf("(Some %d)", e.ctxK)
 	}
+	if e.realDL != nil {
+		return fmt.Sprintf("(mkenv_real %s %s %s %s)", w.keysTerm(), e.gater, e.realTerm, ctx)
+	}
 	return fmt.Sprintf("(mkenv %s %s [%s] %s)", w.keysTerm(), e.gater, strings.Join(dls, "; "), ctx)
 }
 
@@ -690,6 +699,7 @@ func (w *vWorld) call(e vEnv, req proto.Message, cs vCase) (int, bool) {
 	}
 	w.c.gaterFunc = e.gaterFunc
 	w.dl.script = e.dl
+	w.dl.inner = e.realDL
 	callsBefore := w.dl.calls
 	ctx := &vCtx{Context: context.Background(), k: e.ctxK}
 	if e.doneNow {
